@@ -7,7 +7,7 @@
 From Coq Require Import ZArith List Bool Lia ZifyBool.
 Import ListNotations.
 From Urwid Require Import PyBase PyList TextLayout TextLayoutBytes TextLayoutModes TextLayoutFacts TextLayoutProofs TextLayoutModesSim.
-From Urwid Require Width WidthFacts WideProofs WideExact.
+From Urwid Require Width WidthFacts WideProofs WideExact str_loops_gen GenEq.
 Open Scope Z_scope.
 
 Arguments Z.add : simpl never.
@@ -42,6 +42,11 @@ Qed.
 
 Lemma w_within_eq text ls pos : w_within_double_byte text ls pos = Width.within_double_byte text ls pos.
 Proof. apply w_wdb_eq. Qed.
+
+(* ... and C11 proves that function equal to the translation regenerated from str_util.py on every run *)
+Lemma w_within_is_translated text ls pos :
+  w_within_double_byte text ls pos = str_loops_gen.within_double_byte_gen 3 text ls pos.
+Proof. rewrite w_within_eq. symmetry. apply GenEq.within_double_byte_gen_eq. Qed.
 
 Lemma w_calc_text_pos_eq wcw t a b p : w_calc_text_pos t a b p = Width.calc_text_pos wcw Width.MWide t a b p.
 Proof. unfold w_calc_text_pos, Width.calc_text_pos. rewrite w_within_eq. reflexivity. Qed.
@@ -141,10 +146,10 @@ Proof.
   replace (b <=? a) with false by lia. reflexivity.
 Qed.
 
-Lemma narrow_strw e : str_width_g P_narrow (map enc_n e) = sumw cw_n e.
+Lemma narrow_roww e : p_cw P_narrow (flat_map enc_n e) 0 (zlen (flat_map enc_n e)) = Ok (sumw cw_n e).
 Proof.
-  unfold str_width_g. cbn [p_cw P_narrow]. unfold n_calc_width. rewrite <- flat_map_concat_map, F_n.
-  pose proof (zlen_nonneg e). replace (zlen e <? 0) with false by lia. rewrite sumw_n. lia.
+  cbn [p_cw P_narrow]. unfold n_calc_width. rewrite F_n.
+  pose proof (zlen_nonneg e). replace (zlen e <? 0) with false by lia. rewrite sumw_n. f_equal. lia.
 Qed.
 
 End Narrow.
@@ -155,7 +160,7 @@ Theorem narrow_layout_is_image s width align wrap ell : 1 <= width ->
 Proof.
   intros Hw.
   exact (g_layout_is_image enc_n enc_n_len s cw_n cw_n_range P_narrow (narrow_head s) (narrow_cw s) (narrow_ctp s)
-           (narrow_wide s) (narrow_prev s) (narrow_next s) width Hw eq_refl narrow_strw align wrap ell).
+           (narrow_wide s) (narrow_prev s) (narrow_next s) width Hw eq_refl narrow_roww align wrap ell).
 Qed.
 
 (* ====================================================================================== *)
@@ -369,11 +374,11 @@ Proof.
       assert (cw_w c = 2) by (unfold cw_w; replace (c <? 256) with false by lia; reflexivity). lia.
 Qed.
 
-Lemma wide_strw e : str_width_g P_wide (map enc_w e) = sumw cw_w e.
+Lemma wide_roww e : p_cw P_wide (flat_map enc_w e) 0 (zlen (flat_map enc_w e)) = Ok (sumw cw_w e).
 Proof.
-  unfold str_width_g. cbn [p_cw P_wide]. unfold n_calc_width. rewrite <- flat_map_concat_map.
+  cbn [p_cw P_wide]. unfold n_calc_width.
   pose proof (zlen_nonneg (flat_map enc_w e)). replace (zlen (flat_map enc_w e) <? 0) with false by lia.
-  rewrite len_F_w. lia.
+  rewrite len_F_w. f_equal. lia.
 Qed.
 
 End Wide.
@@ -384,5 +389,5 @@ Theorem wide_layout_is_image s width align wrap ell : forallb wfb s = true -> 1 
 Proof.
   intros Hwf Hw.
   exact (g_layout_is_image enc_w enc_w_len s cw_w cw_w_range P_wide (wide_head s Hwf) (wide_cw s) (wide_ctp s Hwf)
-           (wide_wide s Hwf) (wide_prev s Hwf) (wide_next s Hwf) width Hw eq_refl (wide_strw s) align wrap ell).
+           (wide_wide s Hwf) (wide_prev s Hwf) (wide_next s Hwf) width Hw eq_refl (wide_roww s) align wrap ell).
 Qed.
